@@ -136,8 +136,6 @@ class Baton:
                 break
             to = live[self.tape.draw(len(live))]
             self._hand(ctl, to)
-            if self.errors:
-                break
 
     # -- line-level pre-emption -------------------------------------------
     def _make_tracer(self, key: str):
